@@ -16,6 +16,7 @@ import Desync.Model.Sparse
 import Desync.Model.HttpHandler
 import Desync.Model.LocalStore
 import Desync.Model.SftpStore
+import Desync.Model.S3Store
 import Desync.Model.Dedup
 import Desync.Model.Pool
 import Desync.Model.Chain
@@ -436,6 +437,9 @@ def filesStr (d : StoreDir) : String :=
 /-- `prune.run unc= keep=idhex,… files=dirhex/namehex;…` (files in walk order) -/
 def cmdPruneRun (a : Args) : String :=
   let keepIds := if (a.get "keep").isEmpty then [] else ((a.get "keep").splitOn ",").filterMap ofHex
+  if a.get "backend" == "s3" then
+    "ok " ++ filesStr (s3Prune (a.bool "unc") (fun id => keepIds.contains id) (parseFiles (a.get "files")))
+  else
   let run := if a.get "backend" == "sftp" then sftpPrune else prune
   match run (a.bool "unc") (fun id => keepIds.contains id) (parseFiles (a.get "files")) with
   | .ok d => "ok " ++ filesStr d
